@@ -128,6 +128,10 @@ pub struct Agg {
     pub clock_jumps: u64,
     pub panicking_calls: u64,
     pub at_exit_calls: u64,
+    pub env_reads: u64,
+    pub env_perturbed: u64,
+    pub env_keys: Vec<String>,
+    pub env_plan_runs: u64,
     pub edges: u64,
     pub edge_offers: u64,
     pub cold_runs: u64,
@@ -195,6 +199,13 @@ impl Agg {
         self.clock_jumps += r.clock_jumps;
         self.panicking_calls += r.panicking_calls;
         self.at_exit_calls += r.at_exit_calls;
+        self.env_reads += r.env_reads;
+        self.env_perturbed += r.env_perturbed;
+        for k in &r.env_keys {
+            if self.env_keys.len() < 16 && !self.env_keys.contains(k) {
+                self.env_keys.push(k.clone());
+            }
+        }
         self.edges += r.edges;
         self.edge_offers += r.edge_offers;
         if r.cold {
@@ -777,6 +788,12 @@ pub fn check(tier_name: &str, base_seed: u64) -> Outcome {
         "determinism re-execution: {} runs re-executed in other processes/worker counts, {:.1}s",
         redo_runs, determinism_s
     );
+    if ex.agg.env_reads > 0 {
+        println!(
+            "WARNING: the library read environment variables inside API calls ({} reads: {:?}); {} of them were answered from a perturbation plan",
+            ex.agg.env_reads, ex.agg.env_keys, ex.agg.env_perturbed
+        );
+    }
     if ex.agg.path_impure > 0 {
         println!(
             "WARNING: {} calls took a different path through the library than the same request earlier in the same process (results equal the reference): e.g. {:?}",
@@ -1055,6 +1072,9 @@ pub fn check(tier_name: &str, base_seed: u64) -> Outcome {
                 "F11_simulated_clock_jumps": a.clock_jumps,
                 "F2b_call_made_from_a_destructor_while_the_caller_unwinds": a.panicking_calls,
                 "F10b_call_registered_for_thread_local_destructor_at_thread_exit": a.at_exit_calls,
+                "F12_environment_reads_by_the_library_inside_calls": a.env_reads,
+                "F12_environment_reads_answered_from_the_perturbation_plan": a.env_perturbed,
+                "F12_environment_variables_read": a.env_keys,
             },
             "harness_probes": {
                 "calls_overlapping_on_same_object": a.same_obj_overlap,
@@ -1114,7 +1134,7 @@ pub fn check(tier_name: &str, base_seed: u64) -> Outcome {
             "miri": miri,
             "components": {
                 "real": ["regexml parser/optimiser/matcher/iterators (built from /repo working tree, feature verif-hooks)", "BLOCK_LOOKUP with std::sync::OnceLock", "icu_casemap / icu_properties / icu_collections with baked data", "ahash hashing code", "std::thread caller threads, thread-local storage", "glibc malloc", "process start (cold state)"],
-                "owned_by_simulator": ["the clock as seen by caller threads (clock_gettime defined by the harness executable: real time + simulator-owned offset; the pinned library reads no clock)", "which caller thread runs (token scheduler at hook sites and operation boundaries)", "ahash per-map key material (set_random_source) and per-process keys (--cfg fuzzing)", "caller crashes (unwind at a chosen hook step)", "logical clock (hook hits + scheduler events)"],
+                "owned_by_simulator": ["the process environment as seen by the library inside calls (getenv defined by the harness executable; the pinned library reads none)", "the clock as seen by caller threads (clock_gettime defined by the harness executable: real time + simulator-owned offset; the pinned library reads no clock)", "which caller thread runs (token scheduler at hook sites and operation boundaries)", "ahash per-map key material (set_random_source) and per-process keys (--cfg fuzzing)", "caller crashes (unwind at a chosen hook step)", "logical clock (hook hits + scheduler events)"],
                 "stubbed": [],
                 "absent_in_code_base": ["network", "disk", "timers/clocks"],
             },
